@@ -3,6 +3,7 @@
 import json
 props={json.loads(l)["id"]:json.loads(l) for l in open('/verif/properties.jsonl')}
 claimed={
+ "C17":("other","structural necessary conditions: spacingAtLevel formulas with inward (ticks) / outward (Nice) rounding, CountTicks = len(TicksAtLevel) sibling agreement, Ticks decision lists and major/minor levels, Nice's new domain from spacingAtLevel(level,true) and no write on failure, FindLevel's prefix, clamp and search recurrences with exit values, D-floor with the guessLevel exemption; not minimality of the level or finiteness","formula/recurrence conformance + sibling agreement + field-at-exit + D-floor"),
  "C20":("proof","sound over-approximating effect analysis: every write any exported API call can perform is classified; all obligations must be discharged; anything not understood fails closed","interprocedural effect and points-to analysis on go/ssa (engine A)"),
  "C01":("other","structural necessary conditions: rank-pass recurrences (matched by role), U1/U2 formulas, labeledMerge value/label pairing, exact-branch tails per alternative with the lattice-offset rule, exhaustiveness; one recorded finding (two-sided exact formula); not the exactness of UDist itself","recurrence-system and formula conformance on go/ssa (engine B)"),
  "C02":("other","structural necessary conditions: support decision lists, tied/untied PMF and CDF formulas, mirror flip, the Mann-Whitney recurrence in UDist.p, makeUmemo coefficient recurrence, sibling agreement of its two passes, K=2 base case with floor division, step term; D-floor; not the combinatorial exactness of the counts","formula/recurrence conformance and sibling agreement on go/ssa (engine B) + D-floor"),
